@@ -141,6 +141,15 @@ class FloatTok:
     def rbinop_(self, it, op, other, node):
         return FloatTok()
 
+    def compare(self, it, op, other, node):
+        """comparing two instants: either way (a ghost boolean, remembered for the postconditions)"""
+        b = it.run.fresh_bool('instant_cmp')
+        it.run.ghost.setdefault('svs.cmps', []).append(b)
+        return b
+
+    def rcompare(self, it, op, other, node):
+        return self.compare(it, op, other, node)
+
 
 class NameTok:
     """a node id (a Name) known only through its ghost identity"""
@@ -408,7 +417,12 @@ class sync_handler(Contract):
         else:
             out['steady_state_kept_only_when_the_sender_is_not_behind'] = And(self.d['state'] is SvsState.SyncSteady, Not(behind))
             out['steady_state_leaves_the_aggregate_alone'] = A.same_as(A0)
-            out['periodic_timer_restarted'] = ev.sets == 1
+            # the periodic timer is pushed back - unless a sync Interest is due right now (a publication waiting for the timer
+            # task): then the timer is left alone, so that the publication is announced promptly
+            cmps = g.get('svs.cmps', [])
+            out['periodic_timer_restarted_unless_an_interest_is_due_now'] = len(cmps) == 1 and \
+                Or(And(cmps[0], ev.sets == 1, isinstance(self.d['next_sync_timing'], FloatTok)),
+                   And(Not(cmps[0]), ev.sets == 0, self.d['next_sync_timing'] == 0.0))
         return out
 
 
